@@ -359,9 +359,85 @@ def shape(tree, modname=None):
     tree = NNF().visit(tree)             # the nesting step creates new `not` tests
     tree = loops_to_comprehensions(tree)
     tree = merge_dict_stores(tree)
+    return ast.fix_missing_locations(tree)
+
+
+def shape_temps(tree):
+    """second phase, after the purity of the package's own functions is known (purity()): temporaries"""
     if os.environ.get('GSCAN_NO_TEMPS') != '1':
         tree = inline_temps(tree)
     return ast.fix_missing_locations(inline_return_temps(tree))
+
+
+MUTATORS = {'append', 'extend', 'insert', 'remove', 'pop', 'clear', 'sort', 'reverse', 'update', 'add', 'discard', 'setdefault', 'popitem',
+            'write', 'writelines', 'close', 'send', 'put', 'fill', 'resize', 'itemset', 'seek', 'read', 'readline', 'next', '__next__'}
+REPO_PURE_FUNCS = set()
+REPO_PURE_METHODS = set()
+
+
+def purity(trees):
+    """names of the package's own functions / methods that are PURE, to a least fixed point: no store into an attribute or a
+    subscript (except `self.x = ..` in `__init__`), no global / nonlocal / del / yield, and every call goes to a pure builtin, a pure
+    method name, or a name all of whose definitions in the package are pure. Used by the temporaries pass to move a read across a
+    call. A name is only trusted when EVERY function (method) of that name in the package is pure."""
+    funcs, methods, classes = {}, {}, {}
+    for t in trees:
+        for n in ast.walk(t):
+            if isinstance(n, ast.ClassDef):
+                classes.setdefault(n.name, []).append(n)
+                for m in n.body:
+                    if isinstance(m, (ast.FunctionDef, ast.AsyncFunctionDef)):
+                        m._is_method = True
+                        methods.setdefault(m.name, []).append(m)
+        for n in ast.walk(t):
+            if isinstance(n, (ast.FunctionDef, ast.AsyncFunctionDef)) and not getattr(n, '_is_method', False):
+                funcs.setdefault(n.name, []).append(n)
+
+    def local_ok(fn, pure_f, pure_m):
+        is_init = fn.name == '__init__' and getattr(fn, '_is_method', False)
+        selfname = fn.args.args[0].arg if fn.args.args else None
+        for x in ast.walk(fn):
+            if isinstance(x, (ast.Global, ast.Nonlocal, ast.Delete, ast.Yield, ast.YieldFrom, ast.Await, ast.AsyncFunctionDef)):
+                return False
+            if isinstance(x, (ast.Attribute, ast.Subscript)) and isinstance(x.ctx, (ast.Store, ast.Del)):
+                if is_init and isinstance(x, ast.Attribute) and isinstance(x.value, ast.Name) and x.value.id == selfname:
+                    continue
+                return False
+            if isinstance(x, ast.Call):
+                f = x.func
+                if isinstance(f, ast.Name):
+                    if f.id in PURE_FUNCS or f.id in pure_f:
+                        continue
+                    if f.id in classes and all(('__init__' not in [m.name for m in c.body if isinstance(m, ast.FunctionDef)]) or
+                                               all(id(m) in pure_ids for m in c.body if isinstance(m, ast.FunctionDef) and m.name == '__init__')
+                                               for c in classes[f.id]) and f.id not in funcs:
+                        continue
+                    return False
+                if isinstance(f, ast.Attribute):
+                    if f.attr in MUTATORS:
+                        return False
+                    if f.attr in PURE_METHODS and f.attr not in methods:
+                        continue
+                    if f.attr in pure_m:
+                        continue
+                    if isinstance(f.value, ast.Name) and f.value.id in ('np', 'numpy', 'math') and f.attr in PURE_FUNCS:
+                        continue
+                    return False
+                return False
+        return True
+    pure_ids = set()
+    pure_f, pure_m = set(), set()
+    for _ in range(12):
+        before = len(pure_ids)
+        for group in list(funcs.values()) + list(methods.values()):
+            for fn in group:
+                if id(fn) not in pure_ids and local_ok(fn, pure_f, pure_m):
+                    pure_ids.add(id(fn))
+        pure_f = {n for n, g in funcs.items() if all(id(f) in pure_ids for f in g) and n not in classes}
+        pure_m = {n for n, g in methods.items() if all(id(f) in pure_ids for f in g) and n not in MUTATORS and not n.startswith('__')}
+        if len(pure_ids) == before:
+            break
+    return pure_f, pure_m
 
 
 def positional_calls(repo):
@@ -422,9 +498,9 @@ def effect_free(e):
     for x in ast.walk(e):
         if isinstance(x, ast.Call):
             f = x.func
-            if isinstance(f, ast.Name) and f.id in PURE_FUNCS:
+            if isinstance(f, ast.Name) and (f.id in PURE_FUNCS or f.id in REPO_PURE_FUNCS):
                 continue
-            if isinstance(f, ast.Attribute) and f.attr in PURE_METHODS:
+            if isinstance(f, ast.Attribute) and (f.attr in PURE_METHODS or f.attr in REPO_PURE_METHODS):
                 continue
             if isinstance(f, ast.Attribute) and isinstance(f.value, ast.Name) and f.value.id in ('np', 'numpy', 'math') and \
                     f.attr in PURE_FUNCS:
@@ -590,8 +666,13 @@ def _inline_temps_once(fn):
                 loads[n.id] = loads.get(n.id, 0) + 1
             else:
                 stores[n.id] = stores.get(n.id, 0) + 1
-        if isinstance(n, ast.ExceptHandler) and n.name:
-            banned.add(n.name)
+        if isinstance(n, ast.ExceptHandler):
+            if n.name:
+                banned.add(n.name)
+            # what a handler reads must be bound exactly where the source binds it
+            banned.update(x.id for b in n.body for x in ast.walk(b) if isinstance(x, ast.Name))
+        if isinstance(n, ast.Try):
+            banned.update(x.id for b in n.finalbody for x in ast.walk(b) if isinstance(x, ast.Name))
         if isinstance(n, (ast.Import, ast.ImportFrom)):
             banned.update((a.asname or a.name).split('.')[0] for a in n.names)
         if isinstance(n, (ast.AugAssign,)) and isinstance(n.target, ast.Name):
@@ -617,23 +698,42 @@ def _inline_temps_once(fn):
                 i += 1
                 continue
             t = st.targets[0].id
-            if t in banned or stores.get(t) != 1 or not loads.get(t):
+            if t in banned or not stores.get(t) or not loads.get(t):
                 i += 1
                 continue
             e = st.value
+            if stores[t] == 1:
+                end, need = len(blk), loads[t]
+            else:
+                # several definitions: this one is handled when the SAME block kills it unconditionally further down (a plain
+                # assignment to t) and nothing in between can leave the block while it is live
+                k = next((j_ for j_ in range(i + 1, len(blk)) if t in _stores(blk[j_])), None)
+                kill = blk[k] if k is not None else None
+                tops = [y for tg in kill.targets for y in (tg.elts if isinstance(tg, (ast.Tuple, ast.List)) else [tg])] \
+                    if isinstance(kill, ast.Assign) else []
+                if kill is None or not any(isinstance(y, ast.Name) and y.id == t for y in tops) or \
+                        any(isinstance(x, (ast.Break, ast.Continue, ast.Try)) for s_ in blk[i + 1:k] for x in ast.walk(s_)):
+                    i += 1
+                    continue
+                end = k + 1
+                need = sum(1 for s_ in blk[i + 1:end] for x in ast.walk(s_) if isinstance(x, ast.Name) and x.id == t and
+                           isinstance(x.ctx, ast.Load))
+                if not need:
+                    i += 1
+                    continue
             if any(isinstance(x, ast.Name) and x.id == t for x in ast.walk(e)):
                 i += 1
                 continue
             pure = effect_free(e)
-            if loads[t] > 1 and not _reference_expr(e):
+            if need > 1 and not _reference_expr(e):
                 i += 1          # evaluated several times it would give several objects: only references may be duplicated
                 continue
             reads = {x.id for x in ast.walk(e) if isinstance(x, ast.Name)}
             found, ok, j = [], True, i + 1
-            while j < len(blk) and len(found) < loads[t]:
+            while j < end and len(found) < need:
                 s = blk[j]
                 hdr = _header_exprs(s)
-                n_here = sum(1 for x in ast.walk(s) if isinstance(x, ast.Name) and x.id == t)
+                n_here = sum(1 for x in ast.walk(s) if isinstance(x, ast.Name) and x.id == t and isinstance(x.ctx, ast.Load))
                 if n_here:
                     if hdr is None:
                         ok = False
@@ -646,25 +746,25 @@ def _inline_temps_once(fn):
                         break
                     if not pure:
                         # arbitrary e: next statement, single use, only names / constants evaluated before it
-                        if j != i + 1 or loads[t] != 1 or not _leads(hdr, t):
+                        if j != i + 1 or need != 1 or not _leads(hdr, t):
                             ok = False
                             break
                     found.extend(x for x, _, _ in uo.uses)
-                if len(found) < loads[t]:
+                if len(found) < need:
                     # s lies between the definition and a later use
                     if not pure or not _effect_free_stmt(s) or (_stores(s) & (reads | {t})):
                         ok = False
                         break
                 j += 1
-            if not ok or len(found) != loads[t]:
+            if not ok or len(found) != need:
                 i += 1
                 continue
-            for s in blk[i + 1:j + 1]:
+            for s in blk[i + 1:j]:             # j is one past the last statement examined
                 _replace_name(s, t, e)
             del blk[i]
             changed = True
-            stores[t] = 0
-            loads[t] = 0
+            stores[t] -= 1
+            loads[t] -= need
             for x in ast.walk(e):
                 if isinstance(x, ast.Name) and isinstance(x.ctx, ast.Load):
                     loads[x.id] = loads.get(x.id, 0) + max(len(found) - 1, 0)
